@@ -317,4 +317,50 @@ def brun (k : Kind) (t : Nat) (n : Bool) : Builder → List BOp → Builder
   | b, [] => b
   | b, op :: ops => brun k t n (bstep k t n b op).1 ops
 
+/-! ## the instance caches (`snakeoil.caching.WeakInstMeta`)
+
+Almost every restriction class is instance cached: `cls(*args, **kw)` looks `(args, kw)` up in the class's weak
+dictionary of alive instances — a dict lookup, i.e. by hash and `==` of the arguments, children included — and hands
+out the stored instance instead of building a new one.  The composite classes build their inner trees that way
+(`StaticUseDep` / `UseDepDefault`: `values.AndRestriction(*containments)`; atoms: their whole restriction tuple), so what
+an object is made of depends on which other restrictions happen to be alive when it is built.
+
+`cachedBuild` rebuilds a description bottom-up through such caches.  The caches are abstract: a state `σ` and a
+function `step` that is asked once per constructor call with the instance that would be built and answers with an
+alive instance to hand out instead (or `none`: build) and the next state (instances registered, weak references
+gone, …).  The only thing known about a hit is what the dict lookup guarantees — see `Props`. -/
+
+/-- one constructor call: whatever the cache hands out, else the fresh instance -/
+def pick {σ : Type} (step : σ → Restr → Option Restr × σ) (s : σ) (fresh : Restr) : Restr × σ :=
+  ((step s fresh).1.getD fresh, (step s fresh).2)
+
+mutual
+def cachedBuild {σ : Type} (step : σ → Restr → Option Restr × σ) : σ → Restr → Restr × σ
+  | s, .flatten d c n => pick step (cachedBuild step s c).2 (.flatten d (cachedBuild step s c).1 n)
+  | s, .strConv c => ((.strConv (cachedBuild step s c).1), (cachedBuild step s c).2)      -- not a cached class
+  | s, .pkgRestr k m ats n c => pick step (cachedBuild step s c).2 (.pkgRestr k m ats n (cachedBuild step s c).1)
+  | s, .conditional ats n c p =>
+    pick step (cachedBuildL step (cachedBuild step s c).2 p).2
+      (.conditional ats n (cachedBuild step s c).1 (cachedBuildL step (cachedBuild step s c).2 p).1)
+  | s, .bool k t n cs => pick step (cachedBuildL step s cs).2 (.bool k t n (cachedBuildL step s cs).1)
+  | s, .depset cs => (.depset (cachedBuildL step s cs).1, (cachedBuildL step s cs).2)     -- DepSet itself is not cached
+  | s, .strExact e c n h => pick step s (.strExact e c n h)
+  | s, .strGlob g p n i h => pick step s (.strGlob g p n i h)
+  | s, .strRegex r n i m h => pick step s (.strRegex r n i m h)
+  | s, .contain v a n => pick step s (.contain v a n)
+  | s, .useDefault m v n => (.useDefault m v n, s)                                          -- `caching=False`
+  | s, .func f n => pick step s (.func f n)
+  | s, .version vals d n ver rev => pick step s (.version vals d n ver rev)
+  | s, .verGlob ver rev => pick step s (.verGlob ver rev)
+  | s, .obj i => pick step s (.obj i)
+  | s, .atom a => pick step s (.atom a)
+termination_by structural _ r => r
+def cachedBuildL {σ : Type} (step : σ → Restr → Option Restr × σ) : σ → List Restr → List Restr × σ
+  | s, [] => ([], s)
+  | s, c :: cs =>
+    ((cachedBuild step s c).1 :: (cachedBuildL step (cachedBuild step s c).2 cs).1,
+     (cachedBuildL step (cachedBuild step s c).2 cs).2)
+termination_by structural _ cs => cs
+end
+
 end Pkgcore.C07
